@@ -9,6 +9,85 @@
 // The harness never judges: it records facts; specs/base/PlannerContract.tla decides.
 #include "planlab.h"
 #include <ompl/base/PlannerData.h>
+#include <chrono>
+#include <thread>
+#include <time.h>
+using vt::json;
+
+// ---- watchdog: a run that burns more than the CPU limit (or sleeps past the wall limit) is a
+// hang; it becomes a {"e":"Hang"} event (which the contract never accepts) and the process exits
+// with 75 so that the driver can resume behind it.
+static std::atomic<long long> g_runCpuStart{-1};
+static std::atomic<long long> g_runWallStart{-1};
+static json g_current;
+static long long cpuMs()
+{
+    timespec ts;
+    clock_gettime(CLOCK_PROCESS_CPUTIME_ID, &ts);
+    return ts.tv_sec * 1000LL + ts.tv_nsec / 1000000;
+}
+static long long wallMs()
+{
+    return std::chrono::duration_cast<std::chrono::milliseconds>(std::chrono::steady_clock::now().time_since_epoch()).count();
+}
+static void startWatchdog(long cpuLimitMs, long wallLimitMs)
+{
+    std::thread([=] {
+        for (;;)
+        {
+            std::this_thread::sleep_for(std::chrono::milliseconds(250));
+            long long c0 = g_runCpuStart.load(), w0 = g_runWallStart.load();
+            if (c0 < 0)
+                continue;
+            if (cpuMs() - c0 > cpuLimitMs || wallMs() - w0 > wallLimitMs)
+            {
+                json ev = g_current;
+                ev["e"] = "Hang";
+                if (vt::Trace::current())
+                {
+                    vt::Trace::current()->emit(ev);
+                    vt::Trace::current()->flush();
+                }
+                std::cout << "HANG " << ev.dump() << std::endl;
+                _exit(75);
+            }
+        }
+    }).detach();
+}
+static void onCrashSignal(int sig)
+{
+    json ev = g_current.is_object() ? g_current : json::object();
+    ev["e"] = "Crash";
+    ev["what"] = sig == SIGSEGV ? "SIGSEGV" : sig == SIGABRT ? "SIGABRT" : sig == SIGFPE ? "SIGFPE" : "signal";
+    if (vt::Trace::current())
+    {
+        vt::Trace::current()->emit(ev);
+        vt::Trace::current()->flush();
+    }
+    std::cout << "CRASH " << ev.dump() << std::endl;
+    _exit(70);
+}
+static void installRunCrashHandlers()
+{
+    vt::installCrashHandlers();
+    signal(SIGSEGV, onCrashSignal);
+    signal(SIGABRT, onCrashSignal);
+    signal(SIGFPE, onCrashSignal);
+    signal(SIGBUS, onCrashSignal);
+}
+struct RunGuard
+{
+    RunGuard(const json &what)
+    {
+        g_current = what;
+        g_runWallStart = wallMs();
+        g_runCpuStart = cpuMs();
+    }
+    ~RunGuard()
+    {
+        g_runCpuStart = -1;
+    }
+};
 
 using namespace lab;
 
@@ -167,7 +246,7 @@ static json runOne(const std::vector<Entry> &reg, const json &cs, const RunSpec 
 
 int main(int argc, char **argv)
 {
-    vt::installCrashHandlers();
+    installRunCrashHandlers();
     quietLogs();
     std::string mode = argc > 1 ? argv[1] : "";
     auto reg = registry();
@@ -183,8 +262,10 @@ int main(int argc, char **argv)
     {
         // cases file: one JSON per line: {"case": {...GridWorld config...}, "runs": [RunSpec...]}
         auto jobs = vt::readNdjson(argv[2]);
-        vt::Trace tr(argv[3]);
         int shard = atoi(argv[4]), nshards = atoi(argv[5]);
+        long skip = argc > 6 ? atol(argv[6]) : 0;  // resume: number of runs of this shard already done
+        vt::Trace tr(argv[3], skip > 0);
+        startWatchdog(60000, 900000);
         long n = 0;
         for (std::size_t i = 0; i < jobs.size(); ++i)
         {
@@ -197,11 +278,18 @@ int main(int argc, char **argv)
                 const Entry *e = findPlanner(reg, rs.planner);
                 if (!e || !supports(*e, rs.space))
                     continue;
+                if (n++ < skip)
+                    continue;
                 // make the run identifiable if the process dies in it
-                std::cout << "RUN " << json{{"case", cs}, {"run", r}}.dump() << std::endl;
-                tr.emit(runOne(reg, cs, rs));
+                json what{{"planner", rs.planner}, {"space", rs.space}, {"W", cs["W"]}, {"H", cs["H"]},
+                          {"obst", cs["obst"]}, {"start", cs["start"]}, {"goal", cs["goal"]}, {"thr", rs.thr},
+                          {"range", rs.range}, {"budget", rs.budget}, {"seed", rs.seed}, {"idx", n - 1}};
+                std::cout << "RUN " << (n - 1) << std::endl;
+                {
+                    RunGuard g(what);
+                    tr.emit(runOne(reg, cs, rs));
+                }
                 tr.flush();
-                ++n;
             }
         }
         std::cout << "RECORDED " << n << std::endl;
